@@ -80,11 +80,32 @@ def check_case(ctx, cfg, seed):
             if files != sorted(truth):
                 ctx.fail(f'directory mode: files {files} but layers {sorted(truth)}', case, 'neox-dir-files')
                 return
-    if cfg.ckpt_dir is not None:
+    if cfg.ckpt_dir is not None and not any(o in ('v', 'l1', 'l0') for o in cfg.ops[ci + 1:]):
+        # (read back after the run: only meaningful when no later checkpoint rewrote the files; that case is checked below)
         for name, (A, G) in truth.items():
             sd = torch.load(os.path.join(cfg.ckpt_dir, name))
             if not (isinstance(sd.get('A'), torch.Tensor) and isinstance(sd.get('G'), torch.Tensor) and torch.equal(sd['A'], A) and torch.equal(sd['G'], G)):
                 ctx.fail(f'directory mode: file of layer {name} differs from the inverse worker\'s factors', case, 'neox-dir-content')
+    # a later checkpoint into the same directory replaces the files: after the LAST save they hold what the inverse workers
+    # held at that moment (not what an earlier checkpoint wrote)
+    vs = [i for i, o in enumerate(cfg.ops) if o == 'v']
+    if cfg.ckpt_dir is not None and len(vs) >= 2 and all(o in ('f1', 's', 'v') for o in cfg.ops):
+        li_ = vs[-1]
+        last_s2 = max(i for i, o in enumerate(cfg.ops[:li_]) if o == 's')
+        for r in range(W_):
+            res = rr.res[r]
+            for l, (name, iw) in enumerate(zip(res['names'], res['inv'])):
+                if iw == r:
+                    A, G = res['ops'][last_s2]['factors'][l]
+                    try:
+                        sd = torch.load(os.path.join(cfg.ckpt_dir, name))
+                        okf = torch.equal(sd['A'], A) and torch.equal(sd['G'], G)
+                    except Exception:  # noqa: BLE001
+                        okf = False
+                    if not okf:
+                        ctx.fail(f'after the second checkpoint into the directory the file of layer {name} does not hold the factors its inverse '
+                                 'worker held at that moment (stale or missing)', case, 'neox-dir-stale')
+                        return
     # restore: factor workers hold the saved factors (+ second-order data when asked)
     if cfg.ops[ci] in ('l1', 'l0'):
         for r in range(W_):
@@ -233,6 +254,9 @@ def run(ctx):
         dict(pp=2, dp=2, mp=1, blocks=1, fus=1, ius=3, ops=['f1', 's', 'f1', 's', 'l1', 'f1', 's'], ckpt_dir=None, empty_stage=None),
         dict(pp=1, dp=2, mp=2, blocks=1, fus=1, ius=2, ops=['f1', 's', 'f1', 's', 'v'], ckpt_dir='DIR'),
         dict(pp=2, dp=2, mp=1, blocks=2, fus=1, ius=2, ops=['f1', 's', 'f1', 's', 'l1', 'f1', 's'], ckpt_dir='DIR', empty_stage=None),
+        # two checkpoints into one directory with factor updates in between that are not aligned with the factor interval
+        dict(pp=1, dp=2, mp=1, blocks=1, fus=3, ius=1, hook=True, accum=1, ops=['f1', 's'] * 3 + ['v'] + ['f1', 's'] + ['v'], ckpt_dir='DIR'),
+        dict(pp=2, dp=1, mp=1, blocks=1, fus=2, ius=2, accum=1, ops=['f1', 's'] * 2 + ['v'] + ['f1', 's'] + ['v'], ckpt_dir='DIR', empty_stage=None),
         # an uneven split of a deep model over the pipeline: 18 layers on one stage, 2 on the other (any per-stage chunking of the
         # gather must still be one world-wide sequence)
         dict(pp=2, dp=1, mp=1, stage_blocks=[9, 1], ops=['f1', 's', 'v'], ckpt_dir=None, empty_stage=None, fus=1, ius=1),
